@@ -115,6 +115,23 @@ def reregistration_shape(fn):
     raise Refuse("register_evse: neither `append always` nor `overwrite at the index of an existing id, else append`")
 
 
+def json_keeps_shape(cls):
+    """True when _from_dict rebuilds constraint_matrix with an explicit reshape (rows = constraints, columns = stations),
+    False when it is a bare np.array(list) — a matrix without rows then comes back with shape (0,)"""
+    fn = _fn(cls, "_from_dict")
+    found = None
+    for n in ast.walk(fn):
+        if isinstance(n, ast.Assign) and any(isinstance(t, ast.Attribute) and t.attr == "constraint_matrix" for t in n.targets):
+            v = n.value
+            if isinstance(v, ast.Call) and isinstance(v.func, ast.Attribute) and v.func.attr == "reshape":
+                return True
+            if isinstance(v, ast.Call):
+                found = False
+    if found is None:
+        raise Refuse("_from_dict does not rebuild constraint_matrix from a call")
+    return found
+
+
 def register_shape(fn):
     b = _body(fn)
     first = b[0]
@@ -235,6 +252,10 @@ def generate(repo):
             if need not in ops:
                 raise Refuse("class Current does not define %s" % need)
         own_inplace = "__iadd__" in ops and "__isub__" in ops
+        keeps = json_keeps_shape(cn)
+        fd = _fn(cn, "_from_dict")
+        infos.append(dict(name="ChargingNetwork__from_dict", file=NET, qual="ChargingNetwork._from_dict", line=fd.lineno,
+                          end_line=fd.end_lineno, fingerprint=py2coq.fingerprint(fd), kind="shape"))
         text = (
             "From Coq Require Import String Bool.\nLocal Open Scope string_scope.\n"
             "(* register_evse: `if self.constraint_matrix is not None: raise %s` is the first statement *)\n"
@@ -252,8 +273,11 @@ def generate(repo):
             "Definition update_is_remove_then_add : bool := true.\n"
             "(* class Current defines __iadd__ and __isub__ itself: %s *)\n"
             "Definition current_defines_inplace : bool := %s.\n"
+            "(* _from_dict reshapes the reloaded constraint matrix to (constraints, stations) *)\n"
+            "Definition json_keeps_matrix_shape : bool := %s.\n"
         ) % (reg_exc, cstr(reg_exc), "true" if rereg_over else "false", prefix, suffix, add_exc, cstr(prefix), cstr(suffix), cstr(add_exc),
-             cstr(rem_exc), cstr(upd_exc), own_inplace, "true" if own_inplace else "false")
+             cstr(rem_exc), cstr(upd_exc), own_inplace, "true" if own_inplace else "false",
+             "true" if keeps else "false")
     except (Refuse, OSError, SyntaxError, IndexError, AttributeError) as e:
         text = "(* UNTRANSLATABLE: %s *)\nDefinition untranslatable : True := 0.\n" % str(e).replace("*)", "* )")
         infos.append(dict(name="C12Shape_refused", file=NET, qual="-", line=0, end_line=0, fingerprint="", error=str(e)))
